@@ -180,12 +180,13 @@ def c07(tier, seed):
                     InitPads=[False], Variants=["tr"], FixedEs=[True], TrafficMode="short")
         rl.append(replay("C07", t, seed, 1, threads=14))
         tl.append(t)
-    return merge("fault_enumeration", tl, rl, RULE_D1 +
+    res = merge("fault_enumeration", tl, rl, RULE_D1 +
                  "here: before every handshake step one failing call is injected (thorough: also pairs) - output buffer "
                  "one byte / one tag short of every field end of the message, oversized payload, out-of-turn write/read, "
                  "every field altered, truncation at/inside every field, extension by 1/16/65535 bytes, stale message, "
                  "undersized payload buffer - then the genuine call; expected: documented error kind, unchanged "
                  "observables, and a continuation byte-identical to the failure-free transcript", ASSUME_SYMBOLIC)
+    return add_d2(res, [d2("C07", "faulty", 400 if tier == "quick" else 6000, seed)])
 
 
 def c06(tier, seed):
@@ -303,11 +304,12 @@ def c05(tier, seed):
                 ("c05-tr-deep", dict(MaxSend=3, Depth=7, BadBudget=0, SetBudget=0, SmallBufs=False)),
                 ("c05-tr-oneway", dict(OneWayT=True, MaxSend=3, Depth=5, BadBudget=1, SetBudget=1))]
     tl, rl = tlegs("C05", seed, cfgs)
-    return merge("model_checking", tl, rl, RULE_T +
+    res = merge("model_checking", tl, rl, RULE_T +
                  "here: stateful mode; all delivery schedules of the sent messages to either endpoint (reordering, loss, "
                  "duplication, reflection), altered/truncated/extended/garbage/donor-session deliveries, undersized output "
                  "buffers and explicit receiving-nonce settings; TLC checks InOrderOnce, RejectIsNoOp, OnlyPeerAccepted; the "
                  "code's result and both nonces are compared after every call", ASSUME_SYMBOLIC)
+    return add_d2(res, [d2("C05", "long", 40 if tier == "quick" else 1500, seed)])
 
 
 def c04(tier, seed):
@@ -336,6 +338,29 @@ def c04(tier, seed):
                  "OnlyPeerAccepted", ASSUME_SYMBOLIC)
 
 
+def apalache_nonce():
+    """Inductive invariant of the counter logic for an unbounded reserved value (spec/NonceInd.tla)."""
+    import shutil
+    import subprocess
+    import time as _t
+    out = os.path.join(WORK, "c09-apalache")
+    os.makedirs(out, exist_ok=True)
+    obligations = [("Init => IndInv", ["--init=Init", "--inv=IndInv", "--length=0"]),
+                   ("IndInv /\\ Next => IndInv'", ["--init=IndInit", "--inv=IndInv", "--length=1"]),
+                   ("IndInv => Safety", ["--init=IndInit", "--inv=Safety", "--length=0"])]
+    t0 = _t.time()
+    done = 0
+    for nm, a in obligations:
+        p = subprocess.run(["timeout", "900", "apalache-mc", "check", f"--out-dir={out}", "--cinit=ConstInit"] + a +
+                           [os.path.join(SPEC, "NonceInd.tla")], capture_output=True, text=True, cwd=SPEC)
+        if "EXITCODE: OK" not in p.stdout:
+            raise ToolError(f"Apalache could not discharge '{nm}' of NonceInd.tla:\n" + p.stdout[-1500:])
+        done += 1
+    shutil.rmtree(out, ignore_errors=True)
+    log(f"Apalache: {done}/3 obligations of NonceInd discharged in {_t.time() - t0:.0f}s")
+    return dict(obligations=3, discharged=done, checker_cmd="apalache-mc check --cinit=ConstInit --init=... --inv=... NonceInd.tla")
+
+
 def c09(tier, seed):
     if tier == "quick":
         cfgs = [("c09-top", dict(NonceMode="top", MaxSend=3, Depth=4, BadBudget=1, SetBudget=1)),
@@ -346,12 +371,14 @@ def c09(tier, seed):
                 ("c09-top-sl", dict(NonceMode="top", Stateful=False, MaxSend=2, Depth=4, BadBudget=1, SetBudget=0)),
                 ("c09-top-ow", dict(NonceMode="top", OneWayT=True, MaxSend=3, Depth=5, BadBudget=1, SetBudget=2))]
     tl, rl = tlegs("C09", seed, cfgs)
-    return merge("model_checking", tl, rl, RULE_T +
+    res = merge("model_checking", tl, rl, RULE_T +
                  "here: counters start two below the reserved value 2^64-1 (sender placed there by the verif-hooks hook, "
                  "receiver by set_receiving_nonce) and every interleaving of successful/failing reads and writes and "
                  "explicit settings to {2^64-3, 2^64-2, 2^64-1, 0} is explored; TLC checks StepsByOne, ExhaustedFails, "
                  "ReservedUnused; the recording cipher reports any use of nonce 2^64-1 other than the REKEY input",
                  ASSUME_SYMBOLIC + ["Apalache inductive check of the counter logic for an unbounded nonce domain: see spec/NonceInd.tla (thorough tier)"])
+    res["coverage"]["apalache_inductive_check"] = apalache_nonce()
+    return res
 
 
 def c15(tier, seed):
@@ -363,11 +390,12 @@ def c15(tier, seed):
                 ("c15-sl", dict(Stateful=False, MaxSend=2, Depth=4, BadBudget=0, SetBudget=0, RekeyBudget=2, SmallBufs=False)),
                 ("c15-ow", dict(OneWayT=True, MaxSend=2, Depth=5, BadBudget=0, SetBudget=0, RekeyBudget=3, SmallBufs=False))]
     tl, rl = tlegs("C15", seed, cfgs, per_scn=1 if tier == "quick" else 2)
-    return merge("model_checking", tl, rl, RULE_T +
+    res = merge("model_checking", tl, rl, RULE_T +
                  "here: every sequence of {write, deliver, rekey_outgoing, rekey_incoming, rekey_manually(k1|k2|both, through "
                  "the combined and the single-direction entry points)} on either side; REKEY(k) is a term evaluated from its "
                  "definition (first 32 bytes of ENCRYPT(k, 2^64-1, '', 0^32)) with independent primitives, so post-rekey "
                  "ciphertexts are compared byte for byte; in-sync pairs deliver, out-of-sync pairs reject", ASSUME_SYMBOLIC)
+    return add_d2(res, [d2("C15", "rekey", 300 if tier == "quick" else 5000, seed)])
 
 
 def c16(tier, seed):
@@ -383,10 +411,11 @@ def c16(tier, seed):
                                      backends="mix")),
                 ("c16-sl-ow", dict(Stateful=False, OneWayT=True, MaxSend=2, Depth=4, BadBudget=0, SetBudget=0, BigBudget=1))]
     tl, rl = tlegs("C16", seed, cfgs, per_scn=1 if tier == "quick" else 2)
-    return merge("model_checking", tl, rl, RULE_T +
+    res = merge("model_checking", tl, rl, RULE_T +
                  "here: stateless mode; writes and reads under every nonce of {0,1,2,2^32,2^32+1,2^63} (top mode: 2^64-3.."
                  "2^64-1) in any order and repetition; the expected message under nonce n is the SAME term the stateful "
                  "sender produces as its n-th message, evaluated independently", ASSUME_SYMBOLIC)
+    return add_d2(res, [d2("C16", "threads", 30 if tier == "quick" else 600, seed)])
 
 
 def c11(tier, seed):
@@ -531,7 +560,7 @@ def c08(tier, seed):
         t2 = session("c08-overwrite", OverwritePsk=True, PskMode="only", PubLens=[32], InitPads=[False], Variants=["tr"],
                      TrafficMode="short")
         r2 = replay("C08", t2, seed, 1, threads=14)
-    return merge("model_checking", [t, t2], [r, r2], RULE_D1 +
+    res = merge("model_checking", [t, t2], [r, r2], RULE_D1 +
                  "also: set_psk on an already filled slot at any time (wrong key later replaced by the right one, and the "
                  "reverse), outcome predicted by the model; "
                  "here: the two endpoints are built with exactly one differing context item - the prologue, one PSK, the "
@@ -540,6 +569,7 @@ def c08(tier, seed):
                  "the call that fails; the real code must fail at that call (and nothing may cross afterwards). Name "
                  "mismatches with different primitives are covered by the protocol-agnostic mismatch driver (D2)",
                  ASSUME_SYMBOLIC)
+    return add_d2(res, [d2("C08", "mismatch", 300 if tier == "quick" else 5000, seed)])
 
 
 def c19(tier, seed):
@@ -688,5 +718,51 @@ CHECKS = {
 
 
 def selftest(tier, seed):
-    log("selftest not built yet")
-    return 2
+    """Shows that the checks bite: the model's invariants are not vacuous, and the binding rejects corrupted traces."""
+    import subprocess
+    ok = True
+
+    def expect(cond, what):
+        nonlocal ok
+        log(("ok   " if cond else "FAIL ") + what)
+        ok = ok and cond
+
+    # (a) the partial rollback of the pinned code, as a model switch: TLC must find the design-level counterexample
+    try:
+        session("selftest-partial-rollback", invariants=("Inv",), FullRollback=False, FaultBudget=1, PatSet=["XX", "IK"],
+                PubLens=[32], InitPads=[False], Variants=["tr"], FixedEs=[True], TrafficMode="short", Emit=False)
+        expect(False, "TLC finds a violated invariant with FullRollback = FALSE (C07/C06 at design level)")
+    except ToolError as e:
+        expect("is violated" in str(e), "TLC finds a violated invariant with FullRollback = FALSE (C07/C06 at design level)")
+    # (b) the nonce guard removed: Apalache must refute the inductive step
+    p = subprocess.run(["timeout", "600", "apalache-mc", "check", f"--out-dir={os.path.join(WORK, 'selftest-apalache')}",
+                        "--cinit=ConstInitBug", "--init=IndInit", "--inv=IndInv", "--length=1",
+                        os.path.join(SPEC, "NonceInd.tla")], capture_output=True, text=True, cwd=SPEC)
+    expect("EXITCODE: ERROR" in p.stdout and "violat" in p.stdout.lower(), "Apalache refutes IndInv when the nonce guard is removed")
+    subprocess.run(["rm", "-rf", os.path.join(WORK, "selftest-apalache")])
+    # (c) corrupted traces are rejected
+    names = name_table()
+    d = os.path.join(WORK, "selftest-trace")
+    os.makedirs(d, exist_ok=True)
+    nd = os.path.join(d, "t.ndjson")
+    harness(["trace", "--names", names, "--seed", str(seed), "--sessions", "6", "--profile", "honest", "--out", nd])
+    lines = [json.loads(x) for x in open(nd)]
+    t, line, ev = validate_trace(nd, "selftest-trace-ok")
+    expect(line is None, "the unmodified trace is accepted")
+
+    def variant(name, f):
+        ls = [dict(x) for x in lines]
+        f(ls)
+        p2 = os.path.join(d, name + ".ndjson")
+        open(p2, "w").write("\n".join(json.dumps(x) for x in ls) + "\n")
+        t2, line2, ev2 = validate_trace(p2, "selftest-trace-" + name)
+        expect(line2 is not None, f"trace with {name} is rejected" + (f" (at line {line2})" if line2 else ""))
+
+    iw = next(i for i, x in enumerate(lines) if x["ev"] == "hs_write" and x["res"] == "ok")
+    ir = next(i for i, x in enumerate(lines) if x["ev"] == "hs_read" and x["res"] == "ok" and x["len"] > 0)
+    variant("a wrong message length", lambda ls: ls[iw].__setitem__("len", ls[iw]["len"] + 1))
+    variant("a delivered payload that is not the written one", lambda ls: ls[ir].__setitem__("payload", "v99999"))
+    variant("a dropped read event", lambda ls: ls.pop(ir))
+    variant("a flipped turn indicator", lambda ls: ls[iw]["obs"].__setitem__("turn", not ls[iw]["obs"]["turn"]))
+    variant("different handshake hashes on the two sides", lambda ls: ls[ir]["obs"].__setitem__("hh", "v88888"))
+    return 0 if ok else 2
